@@ -2,6 +2,7 @@
 package c26
 
 import (
+	"errors"
 	"context"
 	"fmt"
 	"sort"
@@ -291,9 +292,159 @@ func realCase(c *kit.Case) {
 	s.finish()
 }
 
+// faultMapBroker wraps the memory map broker, records Subscribe / Unsubscribe calls with the number of
+// local subscribers at call time, and fails the first n Subscribe calls of a channel.
+type faultMapBroker struct {
+	*centrifuge.MemoryMapBroker // embedded as the concrete type: Close stays reachable for Node.Shutdown
+	w     *kit.World
+	node  *centrifuge.Node
+	mu    sync.Mutex
+	calls []kit.BrokerCall
+	nSub  map[string]int
+	fail  func(ch string, nth int) bool
+}
+
+func (b *faultMapBroker) Subscribe(chs ...string) error {
+	for _, ch := range chs {
+		b.mu.Lock()
+		b.nSub[ch]++
+		fail := b.fail != nil && b.fail(ch, b.nSub[ch])
+		b.calls = append(b.calls, kit.BrokerCall{Seq: b.w.Seq(), Op: "subscribe", Channel: ch, Err: fail, LocalSubs: b.node.Hub().NumSubscribers(ch)})
+		b.mu.Unlock()
+		if fail {
+			return errors.New("c26: injected map broker subscribe failure")
+		}
+	}
+	return b.MemoryMapBroker.Subscribe(chs...)
+}
+
+func (b *faultMapBroker) Unsubscribe(chs ...string) error {
+	for _, ch := range chs {
+		b.mu.Lock()
+		b.calls = append(b.calls, kit.BrokerCall{Seq: b.w.Seq(), Op: "unsubscribe", Channel: ch, LocalSubs: b.node.Hub().NumSubscribers(ch)})
+		b.mu.Unlock()
+	}
+	return b.MemoryMapBroker.Unsubscribe(chs...)
+}
+
+// mapCase: map subscriptions go through the same addSubscription / removeSubscription code with the
+// map broker, but a failed first-subscriber Subscribe is answered with an error reply and the
+// connection stays (a stream subscriber is disconnected): whatever the failed attempt left behind
+// stays too. 1-3 connections, 1-2 map channels, the first 0-2 broker Subscribe calls of a channel fail,
+// clients subscribe / retry / unsubscribe at seeded instants around the 1 s deferred unsubscribe job.
+func mapCase(c *kit.Case) {
+	r := c.R
+	w := kit.NewWorld(c)
+	var fb *faultMapBroker
+	failN := map[string]int{}
+	node, _ := w.NewNode(centrifuge.Config{
+		ClientStaleCloseDelay: time.Hour,
+		Map: centrifuge.MapConfig{GetMapChannelOptions: func(string) centrifuge.MapChannelOptions {
+			return centrifuge.MapChannelOptions{Mode: centrifuge.MapModeEphemeral, KeyTTL: time.Minute}
+		}},
+	}, func(n *centrifuge.Node) {
+		mb, err := centrifuge.NewMemoryMapBroker(n, centrifuge.MemoryMapBrokerConfig{})
+		if err != nil {
+			panic(err)
+		}
+		fb = &faultMapBroker{MemoryMapBroker: mb, w: w, node: n, nSub: map[string]int{}}
+		fb.fail = func(ch string, nth int) bool { return nth <= failN[ch] }
+		n.SetMapBroker(fb)
+		n.OnConnecting(func(context.Context, centrifuge.ConnectEvent) (centrifuge.ConnectReply, error) {
+			return kit.Creds("u"), nil
+		})
+		n.OnConnect(func(cl *centrifuge.Client) {
+			cl.OnSubscribe(func(e centrifuge.SubscribeEvent, cb centrifuge.SubscribeCallback) {
+				cb(centrifuge.SubscribeReply{Options: centrifuge.SubscribeOptions{Type: e.Type}}, nil)
+			})
+		})
+	})
+	nCh := r.Range(1, 2)
+	chans := make([]string, nCh)
+	for i := range chans {
+		chans[i] = fmt.Sprintf("c26m:%d", i)
+		failN[chans[i]] = kit.Pick(r, []int{0, 1, 1, 2})
+	}
+	nConn := r.Range(1, 3)
+	conns := make([]*kit.Conn, nConn)
+	for i := range conns {
+		conns[i] = w.NewConn(node, kit.TransportOpts{PingPong: centrifuge.PingPongConfig{PingInterval: -1, PongTimeout: -1}})
+		conns[i].Connect(nil)
+	}
+	w.Settle()
+	grid := []time.Duration{0, time.Millisecond, 500 * time.Millisecond, 990 * time.Millisecond, time.Second, 1010 * time.Millisecond, 1500 * time.Millisecond, 2100 * time.Millisecond}
+	var steps []string
+	refused := 0
+	for k, n := 0, r.Range(3, 9); k < n; k++ {
+		time.Sleep(kit.Pick(r, grid))
+		conn := conns[r.Intn(nConn)]
+		ch := kit.Pick(r, chans)
+		if conn.Client.IsSubscribed(ch) && r.Bool() {
+			id := conn.Unsubscribe(ch)
+			conn.WaitReply(id)
+			steps = append(steps, fmt.Sprintf("%v conn unsubscribes %s", w.Now(), ch))
+			continue
+		}
+		id := conn.Subscribe(&protocol.SubscribeRequest{Channel: ch, Type: int32(centrifuge.SubscriptionTypeMap), Phase: centrifuge.MapPhaseState, Limit: 100})
+		f, ok := conn.WaitReply(id)
+		code := uint32(0)
+		if ok && f.Reply.Error != nil {
+			code = f.Reply.Error.Code
+			refused++
+		}
+		steps = append(steps, fmt.Sprintf("%v map subscribe %s -> replied=%v error=%d (local subscribers now %d)", w.Now(), ch, ok, code, node.Hub().NumSubscribers(ch)))
+	}
+	time.Sleep(4 * time.Second) // deferred unsubscribe jobs (1 s) drain
+	w.Settle()
+	fb.mu.Lock()
+	calls := append([]kit.BrokerCall(nil), fb.calls...)
+	fb.mu.Unlock()
+	state := map[string]bool{}
+	fails := 0
+	for _, call := range calls {
+		switch {
+		case call.Op == "subscribe" && call.Err:
+			fails++
+		case call.Op == "subscribe":
+			state[call.Channel] = true
+		case call.Op == "unsubscribe":
+			if call.LocalSubs != 0 {
+				c.Violation("c26-broker-unsubscribe-with-local-subscribers", fmt.Sprintf("map broker Unsubscribe(%s) was called while the node had %d local subscribers of it", call.Channel, call.LocalSubs), map[string]any{"steps": steps, "broker_calls": calls})
+			}
+			state[call.Channel] = false
+		}
+	}
+	for _, ch := range chans {
+		local := node.Hub().NumSubscribers(ch)
+		switch {
+		case local > 0 && !state[ch]:
+			c.Violation("c26-local-subscribers-without-broker-subscription", fmt.Sprintf("map channel %s has %d local subscriber(s) but the node is not subscribed to it in the map broker (the first %d Subscribe calls were made to fail)", ch, local, failN[ch]), map[string]any{"steps": steps, "broker_calls": calls})
+		case local == 0 && state[ch]:
+			c.Violation("c26-broker-subscription-without-local-subscribers", fmt.Sprintf("map channel %s has no local subscriber but stays subscribed in the map broker after the deferred work drained", ch), map[string]any{"steps": steps, "broker_calls": calls})
+		}
+		if local > 0 {
+			c.Count("map_channels_with_subscribers_at_end", 1)
+		}
+	}
+	c.Eval(len(calls))
+	c.Count("map_cases", 1)
+	c.Count("map_broker_calls", len(calls))
+	c.Count("injected_map_broker_subscribe_failures", fails)
+	c.Count("map_subscribes_refused_after_broker_failure", refused)
+	c.Nontrivial(fmt.Sprintf("map|%d|%d|f%d", nConn, nCh, fails))
+	for _, conn := range conns {
+		_ = conn.CloseFn()
+	}
+	w.Shutdown()
+}
+
 func runCase(c *kit.Case) {
 	if c.Index < realCases {
 		realCase(c)
+		return
+	}
+	if c.Index%4 == 3 {
+		kit.RunBubble(c, func() { mapCase(c) })
 		return
 	}
 	kit.RunBubble(c, func() { bubbleCase(c) })
@@ -305,9 +456,9 @@ func TestC26(t *testing.T) {
 		Level: "fault_enumeration",
 		Rule: fmt.Sprintf("cases 0..%d (real time): 60 channels per node with scripted broker failures (Subscribe fails 0-2 times, Unsubscribe 0-3 times) and a resubscribe placed around the 1s deferred broker-unsubscribe job and its 500ms retries. Other cases (virtual time): 1-3 connections x 1-3 channels, subscribe/unsubscribe toggles on a grid of instants around the job's 1s delay (0, 1ms, 500ms, 990ms, 999ms, 1s, 1.001s, 1.01s, 1.5s, 2.1s), an extra delay at the yield point just before the job takes the subscription lock, optional connection close. ", realCases-1) +
 			"Oracle on the broker calls recorded by a wrapper around the real memory broker: every Unsubscribe(ch) call sees 0 local subscribers (sampled inside the call, i.e. under the node's subscription lock); at every check point each channel with local subscribers is broker-subscribed according to the last successful call; after the deferred work drained the broker-subscribed set equals the set of channels with local subscribers.",
-		Assumptions:     []string{"stream broker only (map broker subscriptions use the same addSubscription/removeSubscription code path with another broker object)", "real-time cases poll (up to 120 s) until the deferred jobs drained (1 s + 3 x 500 ms nominal); only a state that never converges is reported"},
+		Assumptions:     []string{"every fourth virtual-time case uses map subscriptions and a wrapper around the real memory map broker whose first 0-2 Subscribe calls per channel fail (a map subscriber gets an error reply and stays connected, unlike a stream subscriber)", "real-time cases poll (up to 120 s) until the deferred jobs drained (1 s + 3 x 500 ms nominal); only a state that never converges is reported"},
 		Cases:           map[string]int{"quick": realCases + 800, "thorough": realCases*4 + 16000},
-		RequireCounters: []string{"broker_subscribe_calls", "broker_unsubscribe_calls", "injected_broker_failures", "channels_with_subscribers_at_end"},
+		RequireCounters: []string{"map_cases", "injected_map_broker_subscribe_failures", "map_subscribes_refused_after_broker_failure", "map_channels_with_subscribers_at_end", "broker_subscribe_calls", "broker_unsubscribe_calls", "injected_broker_failures", "channels_with_subscribers_at_end"},
 		Run:             runCase,
 	})
 }
